@@ -122,8 +122,8 @@ func check(c Case) (out ev.Outcome) {
 		out.Excluded = append(out.Excluded, "root instance is neither an object nor an array")
 		return out
 	}
-	if postmodel.HasKeyword(schemaRaw, "not", "dependencies") {
-		out.Excluded = append(out.Excluded, "schema uses not/dependencies")
+	if postmodel.HasKeyword(schemaRaw, "dependencies") {
+		out.Excluded = append(out.Excluded, "schema uses dependencies")
 		return out
 	}
 	if !gen.NumbersInDomain(schemaRaw) || !gen.NumbersInDomain(instRaw) {
